@@ -1,6 +1,7 @@
 package props17
 
 import (
+	"github.com/bbockelm/cedar/security"
 	"context"
 	"fmt"
 	"strings"
@@ -150,5 +151,64 @@ func s4Case(variant string, bound, maxExecs int) *vlib.Result {
 	res.Nontrivial = res.Evals
 	res.States = append(res.States, "S4/"+variant)
 	res.Sample = map[string]any{"scenario": "S4/" + variant + " CCB broker registration", "threads": 4, "executions": st.Execs, "max_points": st.MaxPoints, "bound": bound, "capped": st.Capped}
+	return res
+}
+
+// ---- S5: the session-id counter. Every server handshake takes the next value of one
+// process-wide counter to make its session id unique within a second; values handed
+// to concurrent callers must all differ. ----
+
+func s5Case(bound, maxExecs int) *vlib.Result {
+	res := &vlib.Result{}
+	var got [][]int
+	mk := func() []func() {
+		got = make([][]int, 3)
+		var bodies []func()
+		for t := 0; t < 3; t++ {
+			t := t
+			bodies = append(bodies, func() {
+				for i := 0; i < 2; i++ {
+					got[t] = append(got[t], security.GetNextSessionCounter())
+				}
+			})
+		}
+		return bodies
+	}
+	seen := map[string]bool{}
+	st := vsched.Explore(bound, 4000, maxExecs, mk, func(x *vsched.Sched) {
+		res.Evals++
+		res.Transitions += len(x.Points)
+		for _, r := range x.Races {
+			k := raceKey(r)
+			if !seen[k] {
+				seen[k] = true
+				res.Violate("C17/S5/data-race/"+k, "session counter: unsynchronised accesses %s (schedule %v)", r, choices(x))
+			}
+		}
+		if x.Deadlock || x.Diverged || x.StepLimit {
+			res.Violate("C17/S5/harness-divergence", "deadlock=%v diverged=%v steplimit=%v", x.Deadlock, x.Diverged, x.StepLimit)
+		}
+		vals := map[int]bool{}
+		for t := range got {
+			for i, v := range got[t] {
+				if vals[v] && !seen["dup"] {
+					seen["dup"] = true
+					res.Violate("C17/S5/duplicate-session-counter", "three goroutines drawing session counters got %v: a value was handed out twice, so two sessions created in the same second share one id (schedule %v)", got, choices(x))
+				}
+				vals[v] = true
+				if i > 0 && v <= got[t][i-1] && !seen["order"] {
+					seen["order"] = true
+					res.Violate("C17/S5/counter-not-increasing", "one goroutine saw %v", got[t])
+				}
+			}
+		}
+		res.Outcome("counter-ok")
+	})
+	if st.Capped {
+		res.Outcome("capped")
+	}
+	res.Nontrivial = res.Evals
+	res.States = append(res.States, "S5")
+	res.Sample = map[string]any{"scenario": "S5 session-id counter", "threads": 3, "executions": st.Execs, "bound": bound}
 	return res
 }
